@@ -292,7 +292,15 @@ def gen_med(op, tier):
         nd = len(shp)
         axes = [None] + list(range(nd)) + ([(0, 1)] if nd == 2 else []) + ([-1] if shp == (2, 3) else []) + ([(0, 2)] if nd == 3 else [])
         ispat = dk[0] == "pat"
+        hasinf = ispat and any(c in "pm" for c in dk[1])
         for ax in axes:
+            if hasinf and op in ("quantile", "nanquantile"):
+                # a priori: with +-inf in the data only the value-selecting methods have a reference -- NumPy's own linear/midpoint
+                # interpolation computes inf*0 / inf-inf (np.nanquantile([2., inf], 0) is nan although the minimum is 2)
+                for m in ("lower", "higher", "nearest"):
+                    for q in (0.0, 0.5, 1.0, (0.3, 0.5)):
+                        yield ("med", op, shp, ch, dk, ax, False, q, m)
+                continue
             if op in ("median", "nanmedian"):
                 for kd in (False, True):
                     yield ("med", op, shp, ch, dk, ax, kd, None, None)
